@@ -218,6 +218,13 @@ Definition new_index (q : pst) : ifile :=
                             | _ => [] end else []) (dmk (pview q))
        ++ map (fun p => ((p, []), mark_time ts_Unreferenced T 0)) (punref q) |}.
 
+(* the stamp of the delete marks: the plan time, or (marks_stamped_at_write) the clock when the index file
+   holding them is written — `add_delete_marks` runs right before `indexer.finalize()` *)
+Definition restamp (now : time) (q : pst) : pst :=
+  {| pph := pph q; plstart := plstart q; psidmark := psidmark q; pview := pview q; pused := pused q;
+     pscanmark := pscanmark q; ptime := if marks_stamped_at_write then now else ptime q; pasg := pasg q;
+     prw := prw q; punref := punref q; pnew := pnew q; pirm := pirm q; pdel := pdel q |}.
+
 Definition delete_list (q : pst) : list pid :=
   flat_map (fun x => if is_delete (todo_of (pasg q) (fst (fst (snd x)))) then [fst (fst (snd x))] else []) (dmk (pview q)).
 
@@ -367,7 +374,7 @@ Definition step (kd : time) (s : st) (e : ev) : option st :=
                         let q' := {| pph := PIndexed; plstart := plstart q; psidmark := psidmark q; pview := pview q;
                                      pused := pused q; pscanmark := pscanmark q; ptime := ptime q; pasg := pasg q; prw := prw q;
                                      punref := punref q; pnew := pnew q; pirm := prw q; pdel := delete_list q |} in
-                        Some {| clock := clock s; packs := packs s; idxs := idxs s ++ [(nexti s, new_index q)]; snaps := snaps s;
+                        Some {| clock := clock s; packs := packs s; idxs := idxs s ++ [(nexti s, new_index (restamp (clock s) q))]; snaps := snaps s;
                                 bks := bks s; prn := Some q'; nextp := nextp s; nexti := S (nexti s); nexts := nexts s |}
                       else None
                   | _, _ => None end
@@ -480,6 +487,22 @@ Fixpoint run_timely (kd : time) (s : st) (es : list ev) : option st :=
     match es with
     | [] => Some s
     | e :: es' => match step kd s e with Some s' => run_timely kd s' es' | None => None end
+    end
+  else None.
+
+(* the premise in the form the repaired code supports: a running backup started before the marks on the packs
+   it relies on were stamped (= published, when marks are stamped at the index write) and is younger than
+   keep_delete *)
+Definition premise (kd : time) (s : st) : bool :=
+  forallb (fun b => negb (running b) ||
+     forallb (fun e => forallb (fun m => negb (Nat.eqb (fst (fst m)) (fst e)) ||
+                                         ((bt0 b <=? snd m) && (clock s <? bt0 b + kd)))
+                               (marks_of s)) (held b)) (bks s).
+Fixpoint run_prem (kd : time) (s : st) (es : list ev) : option st :=
+  if premise kd s then
+    match es with
+    | [] => Some s
+    | e :: es' => match step kd s e with Some s' => run_prem kd s' es' | None => None end
     end
   else None.
 
